@@ -446,7 +446,17 @@ class FPOps(RealOps):
         return z3.fpDiv(RNE, self.zf(x), self.zf(y))
 
     def frem(self, x, y):
-        raise Unsupported("fp32 rem")
+        """C fmod in IEEE arithmetic (exact, sign of x): from the IEEE remainder r = x - y*rne(x/y) (z3 fp.rem), corrected by one |y| when r has the
+        wrong sign; both r and the corrected value are exactly representable, so the rounding mode of the correction is irrelevant"""
+        if isconc(x) and isconc(y):
+            with np.errstate(all="ignore"):
+                return np.float32(np.fmod(np.float32(x), np.float32(y)))
+        xs, ys = self.zf(x), self.zf(y)
+        zero = z3.FPVal(0.0, xs.sort())
+        ay = z3.fpAbs(ys)
+        r = z3.fpRem(xs, ys)
+        return z3.If(z3.And(z3.fpLT(r, zero), z3.fpGT(xs, zero)), z3.fpAdd(RNE, r, ay),
+                     z3.If(z3.And(z3.fpGT(r, zero), z3.fpLT(xs, zero)), z3.fpSub(RNE, r, ay), r))
 
     def trunc(self, x):
         if isconc(x):
